@@ -210,11 +210,19 @@ func pemDER(p string) []byte {
 
 func c18Run(c *Ctx) {
 	pki := newPKI()
-	for _, cfgName := range []string{"server-auth-only", "client-cert-required"} {
-		mtls := cfgName == "client-cert-required"
+	for _, cfgName := range []string{"server-auth-only", "client-cert-required", "server-auth-only-certificate-from-callback", "client-cert-required-config-from-callback"} {
+		mtls := strings.HasPrefix(cfgName, "client-cert-required")
 		stc, ctc := pki.ServerOnly, pki.ClientPlain
 		if mtls {
 			stc, ctc = pki.ServerMTLS, pki.ClientCert
+		}
+		switch cfgName {
+		case "server-auth-only-certificate-from-callback":
+			// a perfectly usable configuration that has no static certificate list
+			stc = &tls.Config{GetCertificate: func(*tls.ClientHelloInfo) (*tls.Certificate, error) { return &pki.Server, nil }}
+		case "client-cert-required-config-from-callback":
+			inner := pki.ServerMTLS
+			stc = &tls.Config{GetConfigForClient: func(*tls.ClientHelloInfo) (*tls.Config, error) { return inner, nil }}
 		}
 		rc := &Recorder{}
 		srv, err := startSrv(SrvCfg{TLS: stc}, func(m *gldap.Mux) { rc.RegisterAll(m, nil) })
